@@ -194,6 +194,29 @@ CLAIMED = {
         "legitimately coexist in a shared walk; equal names / equal arrays is C06's subject). vindex / diagonal are not generated yet.",
         "DESIGN.md §4 C21, §9",
     ),
+    "C24": (
+        "SourceIO.tla (Read enabled iff the request is a basic index inside the source); TLC-enumerated slice / rechunk chains replayed "
+        "over recording sources; every read request and the computed value validated by TLC (SourceIO.IOVerdict)",
+        "Exhaustive within bounds over the lean domains: every behaviour over {Index, Rechunk} of depth 3 (1-D) / 2 (2-D, 3-D), "
+        "observed after every action, over recording array-likes (plain; with a storage grid; with lock + fancy=False + custom "
+        "getitem; wrapped by asarray) and over NumPy arrays with the 64 MiB eager-copy threshold scaled down to 16 bytes (reaching "
+        "the deferred-region path).  TLC checks that every logged request is a basic index within the source's bounds and that the "
+        "value assembled from the reads equals the denotation (NumPy indexing of the source).",
+        "The threshold is a module constant re-assigned in the harness process (no source change). zarr / hdf5 are simulated.",
+        "DESIGN.md §4 C24, §9",
+    ),
+    "C25": (
+        "Gen_IO.tla enumerates store calls; da.store runs on recording targets; before / after contents validated by TLC "
+        "(SourceIO.StoreVerdict)",
+        "Exhaustive within bounds: source shape x chunk grid x {same-shape target, larger target with an offset region} x lock (True, "
+        "False, lock object) x compute x return_stored, single pair and two pairs with different regions, plus every (shape, grid, "
+        "axis) npy-stack round trip.  TLC checks: target after = initial target with the source written into the region and nothing "
+        "else changed; with compute=False nothing is written before computing; arrays returned by return_stored=True read back the "
+        "source; the npy stack reads back the array.",
+        "Known finding F24 (one source stored into two equal-content ndarray targets writes only the first) is reported as KNOWN-FINDING "
+        "from two witness calls.",
+        "DESIGN.md §4 C25, §9",
+    ),
     "C27": (
         "TLC-enumerated layout pairs validated by TLC (Trace_Plan) + node estimates over TLC-enumerated ArrayProgram behaviours",
         "Exhaustive within bounds: (a) every pair of chunkings of every axis length <= 7 (quick) / 9 (thorough): moved_fraction "
@@ -214,6 +237,19 @@ CLAIMED = {
         "advertised known size must be the block's true size, and the value must be the denotation - unless the operation raised.",
         "An operation that raises on unknown or resolved sizes is accepted. compress / nonzero tuples are not modelled.",
         "DESIGN.md §4 C28, §9",
+    ),
+    "C29": (
+        "SourceIO.tla phase machine model-checked (data only flows while executing); TLC-enumerated programs over recording non-NumPy "
+        "sources and logged user block functions walked through construct / inspect / optimize / build / execute; the interleaved log "
+        "validated by TLC (SourceIO.IOVerdict)",
+        "Exhaustive within bounds over the corpora (strided in the quick tier): for every collection over a recording source (plain, "
+        "storage grid, asarray, asanyarray) and every program with a MapBlocks action (with dtype and with meta inference), the driver "
+        "records the reads and user-function calls caused by construction, by 15 metadata accessors (shape, chunks, dtype, name, keys, "
+        "repr, len, numblocks, transfer estimate, html repr, nbytes, size ...), by optimize() / simplify(), by graph building and by "
+        "execution.  TLC rejects any non-empty read or user call on a non-empty block outside the executing phase.",
+        "Known finding F22 (dtype inference calls the user function on fake one-element blocks at construction, as documented for "
+        "dask.array) is reported as KNOWN-FINDING.",
+        "DESIGN.md §4 C29, §9",
     ),
 }
 
